@@ -40,18 +40,22 @@ def programs(tier):
         {'n': 'B', 'base': 'A', 'fields': [['y', I]]},
         {'n': 'C', 'fields': [['z', I]]},
         {'n': 'BigC', 'fields': [['x', U], ['s', I], ['y', ['p', 'Date', {}]]]},
+        # siblings that declare a member of the same name with different types
+        {'n': 'S1', 'base': 'A', 'fields': [['v', I]]},
+        {'n': 'S2', 'base': 'A', 'fields': [['v', U]]},
         {'n': 'D', 'fields': [['a', ['c', 'A', {}]], ['l', ['a', ['c', 'A', {}], {}]], ['d', ['p', 'Date', {}]], ['dec', ['p', 'Decimal', {}]],
                               ['b', ['p', 'Boolean', {}]], ['f', ['p', 'Double', {}]], ['il', ['p', 'Integer', {'max_occurs': 'unbounded'}]],
                               ['c', ['c', 'C', {}]], ['by', ['p', 'ByteArray', {}]], ['e', ['e', 'Color', {}]], ['uu', ['p', 'Uuid', {}]]]},
     ]
-    m = {'n': 'm', 'args': [['a', ['c', 'D', {}]], ['n', I], ['s', U], ['l', ['a', I, {}]], ['r', ['p', 'Int', {'ge': 0, 'le': 10}]]], 'ret': I}
+    m = {'n': 'm', 'args': [['a', ['c', 'D', {}]], ['n', I], ['s', U], ['l', ['a', I, {}]], ['r', ['p', 'Int', {'ge': 0, 'le': 10}]],
+                            ['s1', ['c', 'S1', {}]], ['s2', ['c', 'S2', {}]]], 'ret': I}
     m2 = {'n': 'other', 'args': [['q', ['c', 'BigC', {}]]], 'ret': I}
     prog = {'tns': TNS, 'enums': universe.ENUMS, 'classes': classes, 'services': [{'n': 'S', 'methods': [m, m2]}]}
     val = [Obj('D', a=Obj('A', x=1, s='t'), l=[Obj('A', x=2, s='u'), Obj('B', x=3, s='v', y=4)], d=datetime.date(2020, 1, 2),
                dec=decimal.Decimal('1.5'), b=True, f=2.5, il=[7, 8], c=Obj('C', z=9), by=b'abc', e='red',
-               uu=uuid.UUID('12345678-1234-5678-1234-567812345678')), 5, 'str', [1, 2], 3]
+               uu=uuid.UUID('12345678-1234-5678-1234-567812345678')), 5, 'str', [1, 2], 3, Obj('S1', x=1, s='a', v=42), Obj('S2', x=2, s='b', v='text')]
     val2 = [Obj('D', a=Obj('B', x=1, s='t', y=2), l=[Obj('A', x=2, s='u')], d=None, dec=decimal.Decimal('2'), b=False, f=1.0, il=[7],
-                c=None, by=None, e=None, uu=None), 0, '', [3], 0]
+                c=None, by=None, e=None, uu=None), 0, '', [3], 0, Obj('S1', x=None, s=None, v=0), None]
     out.append(('rich', prog, 'm', [val] if tier == 'quick' else [val, val2]))
     # header program (SOAP only)
     hp = {'tns': TNS, 'enums': universe.ENUMS, 'classes': [{'n': 'H', 'fields': [['h', I], ['t', U]]}, {'n': 'C', 'fields': [['z', U]]}],
